@@ -143,6 +143,20 @@ Example C16_D9_witness :
   = D.bits D.one /\ D.bits D.one <> D.bits l_below_one.
 Proof. vm_compute. split; [reflexivity|discriminate]. Qed.
 
+(* Narrowing of "finite coordinates" in the IEEE statements (recorded, not a
+   finding): |coordinate| <= 2^60 (the squared length overflows beyond) and no
+   non-zero segment shorter than ~1e-18 (its squared length underflows: the
+   computed length is 0, normalize divides by 0).  Witness for the latter:
+   (1e-40, 0) -> (0, 1e-40), L = 2.5: distance 2.5 but the end point is infinite *)
+Example C16_underflow_witness :
+  match curve_L1 lm0 bezier_fuel 1
+          [mkPCP (mkPos (S.of_decimal false 1 (-40)) S.zero) (Some Linear);
+           mkPCP (mkPos S.zero (S.of_decimal false 1 (-40))) None] (Some (D.of_decimal false 25 (-1))) with
+  | Done c => (dump_pos (last (c_path c) pos0), D.bits (dist (c_lengths c)))
+  | _ => ([], 0)
+  end = ([S.bits (S.inf true); S.bits (S.inf false)], D.bits (D.of_decimal false 25 (-1))).
+Proof. vm_compute. reflexivity. Qed.
+
 (* D11: osu! mode, C(0,0) (0,0) B(-37,-31) (-30,59), L = 3.8: the first Catmull
    span (0,0)->(0,0) collapses to a zero-length segment whose cumulative length
    already carries the whole simplification surplus, so the cut lands in it; the end point is (NaN, NaN) while the
